@@ -1,7 +1,9 @@
 #!/bin/bash
 # usage: seedcheck.sh <worktree-id> <seed-name> <property> [extra vcheck args]
 # Confirms a seeded change (demo fails with / passes without) in its scratch worktree,
-# stores it under /verif/seeded/<seed-name>/, and runs the property's check against it in /repo.
+# stores it under /verif/seeded/<seed-name>/, and runs the property's check against the
+# worktree with the change applied (VCHECK_REPO_DIR; /repo itself is not touched, evidence
+# and replay files of this experiment go to /tmp/seedout/<seed-name>).
 set -u
 WT=/tmp/seed/$1; NAME=$2; PROP=$3; shift 3
 export GOFLAGS=-mod=mod GOPROXY=off GOSUMDB=off GOTOOLCHAIN=local
@@ -14,5 +16,8 @@ cd $WT
 echo "== demo with change"; (eval "$DEMO_CMD" 2>&1 | grep -- "^--- FAIL\|^ok\|^FAIL\|^PASS" | head -5)
 git apply -R $S/patch.diff && echo "== demo without change" && (eval "$DEMO_CMD" 2>&1 | grep -- "^--- FAIL\|^ok\|^FAIL\|^PASS" | head -5)
 git apply $S/patch.diff
-cd /repo && git apply $S/patch.diff && echo "== check on /repo with change" && (cd /verif && timeout 1500 ./bin/vcheck $PROP --tier quick "$@" 2>&1 | grep "^VIOLATION\|^  assertion\|exit\|MISMATCH\|INCONCLUSIVE\|KNOWN" | sort | uniq -c | head -12)
-git -C /repo checkout -- . ; git -C /repo status --short | head -3
+git -C $WT diff --stat | tail -1
+mkdir -p /tmp/seedout/$NAME
+echo "== check on the worktree with the change"
+(cd /verif && VCHECK_REPO_DIR=$WT VCHECK_OUT_DIR=/tmp/seedout/$NAME timeout 1800 ./bin/vcheck $PROP --tier quick "$@" 2>&1 | grep "^VIOLATION\|^  assertion\|exit\|MISMATCH\|INCONCLUSIVE\|KNOWN" | cut -c1-220 | sort | uniq -c | head -12)
+rm -rf /tmp/seedout/$NAME
